@@ -198,6 +198,8 @@ class Session:
             sfx = "|after-address-reuse" if ID_SEAM.reused else ""
             if self.coord_switched:
                 sfx += "|after-coordinate-switch"
+            if "lazy_call" in STRATEGIES[self.spec["strategy"]] and (self.spec.get("data_opts") or {}).get("r_boost") is False:
+                sfx += "|r_boost=False"  # recorded finding: lazily batched samples under r_boost: False
             self.log.fail(what, "%s|%s|%s%s" % (self.spec["strategy"], opk, what, sfx), "strategy %s, %s: %s differs from plain eager evaluation (max deviation / scale = %.3g)%s" % (self.spec["strategy"], opk, what, err, "; the address of a dead keyed object had been handed to a new one" if sfx else ""), step=self.step)
             raise Failure()
 
